@@ -12,6 +12,10 @@ ldb_repair_t *g_rep;
 /* name most recently formatted: buffer, kind (ldb_filetype_t, 100 = legacy .sst), number */
 const char *g_nm_buf; int g_nm_kind; uint64_t g_nm_num;
 #define NM_SST 100
+/* a second name the caller received from ITS caller (e.g. repair_table's src), formatted earlier */
+const char *g_pin_buf; int g_pin_kind; uint64_t g_pin_num;
+#define NM_KIND_OF(p) ((p) == g_pin_buf ? g_pin_kind : g_nm_kind)
+#define NM_NUM_OF(p) ((p) == g_pin_buf ? g_pin_num : g_nm_num)
 
 /* archive_file: the file is MOVED to <dir>/lost/<base>, never unlinked */
 unsigned g_arch_calls;             /* calls so far                                                   */
@@ -27,10 +31,10 @@ unsigned g_arch_removes;           /* unlink calls made by archive_file (must st
 #endif
 
 void c_archive_file(ldb_repair_t *rep, const char *fname)
-__CPROVER_requires(rep == g_rep && fname == g_nm_buf)
+__CPROVER_requires(rep == g_rep && (fname == g_nm_buf || fname == g_pin_buf))
 __CPROVER_assigns(REP_ARCH_GHOST REP_ARCH_EXTRA)
-__CPROVER_ensures(g_arch_calls == __CPROVER_old(g_arch_calls) + 1 && g_arch_name == fname && g_arch_kind == g_nm_kind && g_arch_num == g_nm_num)
-__CPROVER_ensures(g_arch_track_hits == __CPROVER_old(g_arch_track_hits) + ((g_nm_kind == g_arch_track_kind && g_nm_num == g_arch_track_num) ? 1u : 0u))
+__CPROVER_ensures(g_arch_calls == __CPROVER_old(g_arch_calls) + 1 && g_arch_name == fname && g_arch_kind == NM_KIND_OF(fname) && g_arch_num == NM_NUM_OF(fname))
+__CPROVER_ensures(g_arch_track_hits == __CPROVER_old(g_arch_track_hits) + ((NM_KIND_OF(fname) == g_arch_track_kind && NM_NUM_OF(fname) == g_arch_track_num) ? 1u : 0u))
 ;
 /* repair_table: call-protocol carrier used by rep.scan.  Its PRECONDITION is the caller's obligation: the table
  * handed over for salvage is named by the file that was actually found (NNNNNN.ldb or legacy NNNNNN.sst) and the
@@ -43,7 +47,8 @@ int g_found_kind;                  /* which of the two table names exists (set b
 void c_repair_table(ldb_repair_t *rep, const char *src, ldb_tabinfo_t *t)
 __CPROVER_requires(rep == g_rep && __CPROVER_rw_ok(t, sizeof(*t)))
 __CPROVER_requires(src == g_nm_buf && g_nm_kind == g_found_kind && (g_nm_kind == LDB_FILE_TABLE || g_nm_kind == NM_SST) && g_nm_num == t->meta.number)
-__CPROVER_assigns(g_rt_calls, g_rt_t REP_RT_EXTRA)
-__CPROVER_ensures(g_rt_calls == __CPROVER_old(g_rt_calls) + 1 && g_rt_t == t)
+__CPROVER_assigns(g_rt_calls, g_rt_t, rep->next_file_number, t->meta.file_size, g_nm_buf, g_nm_kind, g_nm_num, REP_ARCH_GHOST REP_RT_EXTRA)
+/* t is consumed exactly once (registered in rep->tables or destroyed); the allocator only moves forward */
+__CPROVER_ensures(g_rt_calls == __CPROVER_old(g_rt_calls) + 1 && g_rt_t == t && rep->next_file_number >= __CPROVER_old(rep->next_file_number))
 ;
 #endif
